@@ -9,8 +9,9 @@ def run(tier, runner):
         pts += [p for p in matrix.vec_points('quick', std=11) if p.flavour in ('vector', 'small')]
     progs = matrix.programs(runner, pts)
     r_geo, facts = shape.geo(progs)
-    r_one = shape.one_grow(progs)
-    r_gg = shape.grow_guard(progs)
+    real = matrix.real_programs(runner, tier)
+    r_one = shape.one_grow(progs + real)
+    r_gg = shape.grow_guard(progs + real)
     r_gs = shape.grow_shape(progs)
     r_geo.require(2, 'SafeNextCapacity instantiations (both paths)')
     r_one.require(6, 'capacity adjustment call sites')
